@@ -8,6 +8,7 @@ CONSTANTS
   Dev_MaskBit7 = FALSE
   Dev_ShortLens = FALSE
   Dev_BreakOnLenErr = FALSE
+  Dev_BreakOnTimeout = FALSE
   Dev_CheckDoesNotRestore = TRUE
 INVARIANT TypeOK
 INVARIANT M0_Model
